@@ -35,6 +35,13 @@ pub mod chrono {
         { unimplemented!() }
         #[verifier::external_body]
         pub fn nanoseconds(n: i64) -> (r: Duration) ensures dur_ns(r) == n as int { unimplemented!() }
+        /// `Duration::seconds`: PANICS when the value is outside chrono's range (|secs| > i64::MAX / 1000); `try_seconds` returns None there
+        #[verifier::external_body]
+        pub fn seconds(s: i64) -> (r: Duration) requires dur_ok(s as int * 1_000_000_000) ensures dur_ns(r) == s as int * 1_000_000_000 { unimplemented!() }
+        #[verifier::external_body]
+        pub fn try_seconds(s: i64) -> (r: Option<Duration>)
+            ensures match r { Some(d) => dur_ok(s as int * 1_000_000_000) && dur_ns(d) == s as int * 1_000_000_000, None => !dur_ok(s as int * 1_000_000_000) }
+        { unimplemented!() }
         /// whole seconds, truncated toward zero, and the remaining nanoseconds carrying the same sign (chrono: `num_seconds`, `subsec_nanos`)
         #[verifier::external_body]
         pub fn num_seconds(&self) -> (r: i64)
